@@ -9,6 +9,10 @@
  *   - SPxOut::debug: no-op. */
 #include "verif.h"
 #include "constants.h"
+#ifdef CAP            /* quick tier only: a shorter line buffer (must exceed 80, the fixed MPS line width) */
+#undef MAX_LINE_LEN
+#define MAX_LINE_LEN (CAP)
+#endif
 
 #define PATCH_CHAR    V_PATCH_CHAR
 #define BLANK         V_BLANK
